@@ -102,6 +102,23 @@ theorem env_workdir_verbatim_create_command (wd : Str) (env : List (Str × Str))
 example : CreateCommandVerbatim "a b".toList [("K".toList, "$HOME `id` \"q\"".toList)] "echo hi".toList :=
   env_workdir_verbatim_create_command _ _ _ (by decide)
 
+/-- **the redirections of `create_command` quote their file names** (`< f`, `> f`, `2>f`): generated obligation — fails to check as
+    soon as one of them stops using `shlex.quote`; hence each is verbatim for every file name -/
+theorem redirections_quoted :
+    [cc_stdin, cc_stdout, cc_stderr].all (fun t => allShQuoted t && placed ⟨.unq, false⟩ t) = true := by decide
+
+theorem redirections_verbatim (t : Template) (ht : t ∈ [cc_stdin, cc_stdout, cc_stderr]) (st : LexSt) (hst : shape st = ⟨.unq, false⟩)
+    (f : Str) : feed st (render t [f]) = specFeed st [f] t := by
+  have h := List.all_eq_true.mp redirections_quoted t ht
+  simp only [Bool.and_eq_true] at h
+  refine feed_render_quoted t st [f] h.1 (by rw [hst]; exact h.2) ?_
+  simp only [List.mem_cons, List.mem_nil_iff, or_false] at ht
+  rcases ht with rfl | rfl | rfl <;> simp [safeArgsOk, cc_stdin, cc_stdout, cc_stderr]
+
+/-- `cmd > <quote f>` after a command word: the shell sees the redirection operator and the file name `f` as one literal word -/
+example : lexLine (['c', 'a', 't'] ++ render cc_stdout ["a b$x".toList]) =
+    .ok [W ['c', 'a', 't'], .op ['>'], W "a b$x".toList] := by decide
+
 /-! ### the built-in queue-manager template -/
 
 /-- the job script `QueueManagerConnector.run` submits with the built-in template `#!/bin/sh\n\n{{streamflow_command}}`:
